@@ -134,6 +134,7 @@ func init() {
 				ruleCapacity(c)
 				ruleEntryContainers(c, a.cacheA)
 				ruleGetOrCreate(c)
+				ruleLRUContract(c)
 			})
 		})
 	register("C18",
@@ -247,6 +248,7 @@ func init() {
 		nil, func(c *Ctx) {
 			withAnchors(c, func(a *serverAnchors) {
 				ruleLockset(c)
+				ruleLRUContract(c)
 				ruleImmutableAfterConstruction(c)
 				rulePublishedResponse(c, a)
 				rulePooledBytes(c)
